@@ -241,6 +241,17 @@ func (matrix *DenseFloat32Matrix) Tip() {
   matrix.rowMax, matrix.colMax = matrix.colMax, matrix.rowMax
 }
 func (matrix *DenseFloat32Matrix) AsVector() Vector {
+  if matrix.rows*matrix.cols != len(matrix.values) {
+    // the matrix is a slice of a larger matrix, copy its elements
+    n, m := matrix.Dims()
+    v := make([]float32, n*m)
+    for i := 0; i < n; i++ {
+      for j := 0; j < m; j++ {
+        v[i*m + j] = matrix.values[matrix.index(i, j)]
+      }
+    }
+    return DenseFloat32Vector(v)
+  }
   return DenseFloat32Vector(matrix.values)
 }
 func (matrix *DenseFloat32Matrix) storageLocation() uintptr {
@@ -334,6 +345,17 @@ func (matrix *DenseFloat32Matrix) IsSymmetric(epsilon float64) bool {
   return true
 }
 func (matrix *DenseFloat32Matrix) AsConstVector() ConstVector {
+  if matrix.rows*matrix.cols != len(matrix.values) {
+    // the matrix is a slice of a larger matrix, copy its elements
+    n, m := matrix.Dims()
+    v := make([]float32, n*m)
+    for i := 0; i < n; i++ {
+      for j := 0; j < m; j++ {
+        v[i*m + j] = matrix.values[matrix.index(i, j)]
+      }
+    }
+    return DenseFloat32Vector(v)
+  }
   return DenseFloat32Vector(matrix.values)
 }
 /* implement ScalarContainer
